@@ -30,11 +30,11 @@ def c02(chk, tier):
 
 
 STEP_OPS = {
-    "C03": "register_other,register_same,unregister,signals_pending,raw_pending,add_signal,emulate_first,drop_signals,unregister_signal_other,first_reg_prev_info,delivery_pending",
+    "C03": "register_other,register_same,unregister,signals_pending,raw_pending,add_signal,emulate_first,drop_signals,unregister_signal_other,first_reg_prev_info,delivery_pending,close",
     "C01": "unregister,drop_signals,unregister_signal_other",
     "C04": "first_reg_prev_info,first_reg_prev_plain",
     "C02": "register_other,register_same,unregister,drop_signals",
-    "C09": "signals_pending,delivery_pending,add_signal", "C10": "signals_pending,raw_pending,delivery_pending",
+    "C09": "signals_pending,delivery_pending,add_signal,close", "C10": "signals_pending,raw_pending,delivery_pending",
     "C13": "register_same,signals_pending", "C15": "emulate_first,register_same",
 }
 
